@@ -148,6 +148,11 @@ func gen16(seed int64, tier string) []drv.Case {
 	for i := 0; i < nl; i++ {
 		add("linearizable", params{Mode: "linearizable", K: 3 + r.Intn(4)})
 	}
+	// concurrent transfers of large payloads into distinct keys, from sources of every kind (with and without WriteTo),
+	// overwriting and create-if-absent: every key ends up with exactly what its only writer sent
+	for i := 0; i < ne; i++ {
+		add("concurrent-streams", params{Mode: "streams", K: 2 + r.Intn(9), Plain: i%3 != 2, Seed: r.Int63()})
+	}
 	// the default configuration of the store retries failed puts with exponential back-off for 30 s: the losers of an
 	// exclusive write must still lose (two cases per tier unit, one per write path; each takes the 30 s the losers retry)
 	nr := 1
@@ -159,6 +164,30 @@ func gen16(seed int64, tier string) []drv.Case {
 		add("exclusive-writers-default-retry", params{Mode: "exclusive", K: 2 + r.Intn(4), Retry: true, Plain: true})
 	}
 	return cs
+}
+
+// fillReader is a plain io.Reader (no WriteTo, no Seek) delivering `left` bytes of one value, at most chunk per call.
+type fillReader struct {
+	left, chunk int
+	fill        byte
+}
+
+func (f *fillReader) Read(p []byte) (int, error) {
+	if f.left == 0 {
+		return 0, io.EOF
+	}
+	n := len(p)
+	if n > f.chunk {
+		n = f.chunk
+	}
+	if n > f.left {
+		n = f.left
+	}
+	for i := 0; i < n; i++ {
+		p[i] = f.fill
+	}
+	f.left -= n
+	return n, nil
 }
 
 func newStore(defaultRetry ...bool) (storage.Store, string, func()) {
@@ -461,6 +490,73 @@ func run16(c drv.Case, res *drv.Result) {
 			}
 		}
 		res.Sample = map[string]interface{}{"ops": p.Ops[:min(8, len(p.Ops))], "final_keys": sortedKeys(model), "prefixes_swept": len(pl)}
+	case "streams":
+		sr := rand.New(rand.NewSource(p.Seed))
+		type job struct {
+			key   string
+			n     int
+			fill  byte
+			chunk int
+			excl  bool
+		}
+		jobs := make([]job, p.K)
+		for g := range jobs {
+			jobs[g] = job{key: fmt.Sprintf("streams/k%d", g), n: []int{40 << 10, 256 << 10, 300 << 10, 1 << 20, 3 << 20}[sr.Intn(5)] + sr.Intn(5000),
+				fill: byte('a' + g), chunk: []int{512, 4096, 32 << 10, 1 << 20}[sr.Intn(4)], excl: sr.Intn(2) == 0}
+		}
+		for round := 0; round < 3; round++ {
+			var wg sync.WaitGroup
+			errs := make([]error, p.K)
+			start := make(chan struct{})
+			for g := range jobs {
+				wg.Add(1)
+				go func(g int) {
+					defer wg.Done()
+					j := jobs[g]
+					var src io.Reader = &fillReader{left: j.n, fill: j.fill + byte(round), chunk: j.chunk}
+					if !p.Plain {
+						src = bytes.NewReader(bytes.Repeat([]byte{j.fill + byte(round)}, j.n))
+					}
+					<-start
+					errs[g] = s.Put(ctx, fmt.Sprintf("%s-r%d", j.key, round), src, j.excl)
+				}(g)
+			}
+			close(start)
+			wg.Wait()
+			for g, j := range jobs {
+				key := fmt.Sprintf("%s-r%d", j.key, round)
+				if errs[g] != nil {
+					res.Violate("put-failed", "streams", "round %d: Put(%s, %d bytes) among %d concurrent transfers into distinct keys failed: %v", round, key, j.n, p.K, errs[g])
+					return
+				}
+				rc, err := s.Get(ctx, key)
+				if err != nil {
+					res.Violate("get-failed", "streams", "Get(%s) after its Put succeeded: %v", key, err)
+					return
+				}
+				b, _ := ioutil.ReadAll(rc)
+				rc.Close()
+				want := j.fill + byte(round)
+				bad := -1
+				for i, c := range b {
+					if c != want {
+						bad = i
+						break
+					}
+				}
+				if len(b) != j.n || bad >= 0 {
+					at := byte(0)
+					if bad >= 0 {
+						at = b[bad]
+					}
+					res.Violate("bytes-of-another-writer", fmt.Sprintf("plain-reader=%v", p.Plain), "round %d: key %s was written once, by a writer sending %d bytes %q; it holds %d bytes and byte %d is %q (%d concurrent transfers into distinct keys, sources without WriteTo: %v)",
+						round, key, j.n, want, len(b), bad, at, p.K, p.Plain)
+					return
+				}
+				res.Stat("concurrent_transfers_read_back", 1)
+			}
+		}
+		res.Sample = map[string]interface{}{"writers": p.K, "plain_readers": p.Plain, "rounds": 3}
 	case "exclusive":
 		var wg sync.WaitGroup
 		errs := make([]error, p.K)
